@@ -14,12 +14,13 @@ THEOREMS = ["C17_sums", "C17_linear_normal_equations", "C17_quadratic_normal_equ
             "C17_general_normal_equations", "C17_general_eq_quadratic", "C17_general_eq_linear",
             "C17_degenerate_refused", "C17_correlation", "C17_input_forms",
             "C17_correlation_collinear", "C17_correlation_rescaling", "C17_permutation_invariance",
-            "C17_general_permutation_invariance", "C17_noiseless_recovered", "C17_menu_instances"]
+            "C17_general_permutation_invariance", "C17_noiseless_recovered", "C17_menu_instances",
+            "C17_input_forms_any_length", "C17_linear_minimises", "C17_r_one_iff_collinear"]
 PROOF_TIMEOUT = {"quick": 1500, "thorough": 3000}
 EXHAUSTIVE = False
 MANIFEST = {
     "category": "proof",
-    "text": "Ideal (real-arithmetic) instance of the regenerated model, data lists of ANY length (induction over the generated loops): the stored sums are the power sums; whenever the generated guards let a result through, linear/quadratic/general_fitting satisfy the 2x2/3x3 normal equations (residuals orthogonal to every basis function, arbitrary basis functions), general(x^2,x,1) = quadratic and general(x,1,0) = linear, exactly degenerate data give ZeroDivisionError, correlation formula, |r| <= 1 (Cauchy-Schwarz), r = +-1 on collinear data, affine invariance, sign flips, permutation invariance of all fits, noiseless data recovered exactly; all theorems ideal-instance only (binary64 rounding searched, not proved), constructor dispatch proved for 2-3 symbolic points only; bit-exact correspondence incl. basis-function values; exact rational (Fraction) reference search on the implementation.",
+    "text": "Ideal (real-arithmetic) instance of the regenerated model, data lists of ANY length (induction over the generated loops): the stored sums are the power sums; whenever the generated guards let a result through, linear/quadratic/general_fitting satisfy the 2x2/3x3 normal equations (residuals orthogonal to every basis function, arbitrary basis functions), general(x^2,x,1) = quadratic and general(x,1,0) = linear, exactly degenerate data give ZeroDivisionError, correlation formula, |r| <= 1 (Cauchy-Schwarz), r = +-1 on collinear data, affine invariance, sign flips, permutation invariance of all fits, noiseless data recovered exactly; constructor/set() build that object from every input form for tables of any length, linear fit = unique minimiser of the residual sum, |r| = 1 iff collinear; all theorems ideal-instance only (binary64 rounding searched, not proved); bit-exact correspondence incl. basis-function values; exact rational (Fraction) reference search on the implementation.",
     "technique": "generated model + symbolic evaluation (pyrun) + induction over lists + field/nra in the ideal instance + bit-exact differential correspondence + exact rational oracle",
     "design_ref": "8/C17",
 }
@@ -29,18 +30,18 @@ EXPLANATION = ("The model of CurveFitting regenerated from /repo is read in exac
                "let a result through (field), else ZeroDivisionError (both branches explicit, no fuel involved); further: "
                "general(x^2,x,1)=quadratic, general(x,1,null)=linear, |r|<=1, r=+-1 on collinear data, affine invariance, "
                "permutation invariance, noiseless recovery. All theorems are about the ideal instance starting from the stored "
-               "object cf_of xs ys (constructor dispatch proved for 2-3 symbolic points only); binary64 rounding is not covered "
+               "object cf_of xs ys, which the constructor / set() is proved to build from every input form for tables of any length (except the single-list form); the linear fit is proved to be the unique minimiser of the residual sum; binary64 rounding is not covered "
                "by any theorem and is searched against an exact rational reference with a conditioning gate.")
 CLAUSES = {
     "stored sums are N, Sx, Sx2, Sx3, Sx4, Sy, Sxy, Sx2y, Sy2 (float data lists of any length)": "proved [ideal, induction over the generated loop of _compute_parameters]",
-    "linear fit solves the 2x2 normal equations / residuals orthogonal to x and 1 when the guard passes, else ZeroDivisionError": "proved [ideal, any length]",
+    "linear fit solves the 2x2 normal equations / residuals orthogonal to x and 1 when the guard passes, else ZeroDivisionError; it MINIMISES the sum of squared residuals over all lines and is the unique minimiser": "proved [ideal, any length]",
     "quadratic fit solves the 3x3 normal equations / residuals orthogonal to x^2, x, 1 when the guard passes, else ZeroDivisionError": "proved [ideal, any length]",
     "general fit: residuals orthogonal to every basis function (ARBITRARY f0,f1,f2; 3-function branch), 2x2 normal equations in the 2-function branch, all three refusal branches": "proved [ideal, NON-EMPTY float data of any length, induction over the generated loop of general_fitting; function values abstracted by `call` with hypotheses call f_k [VFloat x] = VFloat (g_k x), shown satisfiable by the concrete interpreter menu_call (C17_menu_instances)]",
     "general(x^2, x, 1) = quadratic fit; general(x, 1, null) = linear fit": "proved [ideal, any length, equal returned values; side conditions: the guards of both methods pass (general(x,1) additionally needs Sx2 >= TOL)]",
     "exactly degenerate data (all x equal) => ZeroDivisionError from linear/quadratic fit and correlation": "proved [ideal: exact-zero determinant only]; binary64: data whose determinant evaluated in binary64 is below TOL are searched strictly (key degenerate-not-refused); the known finding degenerate-inexact-not-refused is restricted to: exact determinant 0 (Fraction) AND the documented closed form evaluated in binary64 does not refuse AND the implementation returns bit-identically that result; any other outcome gets key degenerate-inexact-other",
     "correlation coefficient = cov/(sqrt varx * sqrt vary), |r| <= 1, sign flip under y -> -y": "proved [ideal, any length; Cauchy-Schwarz over lists]",
-    "input forms: lists (truncated to the shorter), tuples, interleaved scalars (odd one dropped), copy constructor give the same object cf_of xs ys; one pair refused": "proved [ideal] ONLY for two points with symbolic entries (separate lists also for three; copy constructor on one literal object); nothing is proved about __init__/set for more points (the any-length theorems start from the stored object cf_of xs ys / _compute_parameters); searched for 2-200 points: 7 forms bit-identical",
-    "r = +-1 for collinear data (y = al*x + be, al <> 0, x not all equal); r unchanged by positive affine rescaling of either variable, sign flip under a negative one / negation of x or y": "proved [ideal, any length]; binary64: searched against the exact rational r (|r| <= 1 + 1e-9 accepted: rounding gives up to 1.0000000000000844 on collinear data)",
+    "input forms, tables of ANY length: two lists / two tuples (cut to the shorter one, m = min), interleaved scalars (odd trailing one dropped), copy constructor, set() on an existing object all store cf_of xs ys = the data with their power sums; fewer than two points in a list => ValueError": "proved [ideal, any length >= 2, float entries, whatever the object under construction holds; induction over the generated loops of CurveFitting.set]; not covered by a theorem: the single-list form CurveFitting(ys) (integer abscissae 0..n-1), int/Angle entries, tuples too short; searched for 2-200 points: 7 forms bit-identical",
+    "r = +-1 for collinear data (y = al*x + be, al <> 0, x not all equal) and |r| = 1 ONLY for collinear data; r unchanged by positive affine rescaling of either variable, sign flip under a negative one / negation of x or y": "proved [ideal, any length]; binary64: searched against the exact rational r incl. pure changes of scale 1e-7..1e7 and abscissae spaced 2^-20 (|r| <= 1 + 1e-9 accepted: rounding gives up to 1.0000000000000844 on collinear data)",
     "noiseless data are recovered: points exactly on a line / parabola give back its coefficients when the guard passes": "proved [ideal, any length]",
     "relative 1e-6 agreement of the binary64 result with the exact rational solution on well-conditioned data": "unproved (searched): rounding is outside the ideal instance; Fraction reference with a conditioning gate (first-order rounding estimate of the closed form <= 1e-7 relative)",
     "independence of the order of the points (Permutation of the point list): linear, quadratic fit, correlation; general fit with arbitrary basis functions in every branch its closed forms cover": "proved [ideal, any length: the exact real sums are symmetric; says nothing about the order of binary64 summation]; binary64: searched (all permutations of sets of <= 5 points, 3 random ones of larger sets, relative 1e-6)",
@@ -49,7 +50,7 @@ CLAUSES = {
 
 
 def proof_files(tier):
-    return ["C17_whnf.v", "C17_tac.v", "C17_sums.v", "C17_fits.v", "C17_general.v", "C17_corr.v", "C17_ctor.v", "C17_main.v", "C17_more.v", "C17.v"]
+    return ["C17_whnf.v", "C17_tac.v", "C17_sums.v", "C17_fits.v", "C17_general.v", "C17_corr.v", "C17_ctorN.v", "C17_main.v", "C17_more.v", "C17_lsq.v", "C17.v"]
 
 
 # ------------------------------------------------------------------ data generators
